@@ -9,6 +9,7 @@ and multiplicities, values and errors are compared.  The property oracle (pure P
 model) states the property on the implementation's outputs."""
 import json
 import os
+import re
 
 from vt import core
 from vt.main import decide
@@ -500,12 +501,7 @@ def oracle(c, o):
             continue
         # every value token of the input is matched by exactly one assignment, in input order
         flat = [v for _, op, vs, *_ in tr for v in vs]
-        toks = []
-        for t in inp.split():
-            if t[0].isdigit():
-                toks.append("i%d" % int(t))
-            elif t[0] == "'":
-                toks.append("s" + t[1:-1])
+        toks = ["i%d" % int(t) if t[0].isdigit() else "s" + t[1:-1] for t in re.findall(r"(?<![\w'])\d+\b|'[^']*'", inp)]
         if flat != toks:
             bad.append(("input %r: assignments matched %r, the input's value tokens are %r" % (inp, flat, toks), tags))
         for a in case_attrs(c):
